@@ -179,6 +179,8 @@ pub enum Op {
     Auth(AuthOp),
     /// an authentication during which the store's update call fails with this status (reference store only)
     AuthUpdateFault(AuthOp, u8),
+    /// a registration during which the store refuses the save with this status (reference store and its lock wrappers)
+    RegSaveFault(RegOp, u8),
     /// an assertion at the CTAP2 level on the k-th credential of the model with explicit up/uv options; the
     /// user-validation double reports exactly what is requested (plus verification if `extra_uv`)
     CtapAuth { target: u16, up: bool, uv: bool, extra_uv: bool },
@@ -205,9 +207,14 @@ pub trait StoreAccess: CredentialStore<PasskeyItem = Passkey> + Sync + Send {
     fn clear_log(&self) {}
     /// make the second fallible call (the counter update of an assertion) fail
     fn set_update_fault(&self, _code: Option<u8>) {}
+    /// make the next save fail
+    fn set_save_fault(&self, _code: Option<u8>) {}
 }
 
 impl StoreAccess for RefStore {
+    fn set_save_fault(&self, code: Option<u8>) {
+        self.set_fail_next_save(code);
+    }
     fn set_update_fault(&self, code: Option<u8>) {
         self.set_faults(code.map(|c| std::collections::BTreeMap::from([(1usize, c)])).unwrap_or_default());
     }
@@ -243,6 +250,9 @@ macro_rules! wrapped_store_access {
             }
             fn set_update_fault(&self, code: Option<u8>) {
                 StoreAccess::set_update_fault(&*self.$get().expect("store lock is free between ceremonies"), code)
+            }
+            fn set_save_fault(&self, code: Option<u8>) {
+                StoreAccess::set_save_fault(&*self.$get().expect("store lock is free between ceremonies"), code)
             }
         }
     };
@@ -552,6 +562,9 @@ impl<S: StoreAccess> Runner<S> {
         match res {
             Ok(cred) => {
                 self.stats.reg_ok += 1;
+                if self.faulted && self.kind.is_ref() && self.oracles.c02 && supported && after == before {
+                    return Err("the store refused to save the new credential but the registration reports success (nothing was added)".into());
+                }
                 let (id, x, y) = if self.oracles.c02 {
                     if !supported {
                         return Err(format!("registration succeeded although the preference list {:?} has no supported algorithm", op.algs));
@@ -626,7 +639,7 @@ impl<S: StoreAccess> Runner<S> {
                 } else {
                     self.stats.reg_unexpected_err += 1;
                     self.stats.last_error = format!("register: {e:?}");
-                    if self.oracles.c02 && self.disc != Disc::OnlyNonDiscoverable {
+                    if self.oracles.c02 && self.disc != Disc::OnlyNonDiscoverable && !self.faulted {
                         // the user consents, the store can hold the credential and the list has a supported entry
                         return Err(format!("registration failed with {e:?} although the preference list {:?} (unknown-type mask {:#010b}) contains an entry the authenticator supports", op.algs, op.unknown_type_mask));
                     }
@@ -653,13 +666,18 @@ impl<S: StoreAccess> Runner<S> {
             prf_already_hashed: None,
         });
         let req = cer::request_options(site.rp, &op.challenge, allow, cer::uv_req(op.uv), ext);
+        // the user gives what each request asks for: verified when verification is requested, present otherwise (a client
+        // may turn to the authenticator more than once within a ceremony)
+        self.uv.set_as_asked(true);
         let origin = site.origin();
         let res = catch_unwind(AssertUnwindSafe(|| match &op.cd {
             CdMode::Default => block_on(self.client.authenticate(origin, req, DefaultClientData)),
             CdMode::Extra(v) => block_on(self.client.authenticate(origin, req, DefaultClientDataWithExtra(v.clone()))),
             CdMode::Hash(h) => block_on(self.client.authenticate(origin, req, DefaultClientDataWithCustomHash(h.clone()))),
         }))
-        .map_err(|_| format!("authenticate panicked: {}", crate::last_panic()))?;
+        .map_err(|_| format!("authenticate panicked: {}", crate::last_panic()));
+        self.uv.set_as_asked(false);
+        let res = res?;
         let after = self.store_snapshot();
         match res {
             Ok(r) => {
@@ -854,6 +872,14 @@ pub fn run_history(h: &History, oracles: Oracles) -> Result<Stats, String> {
             match op {
                 Op::Reg(o) => r.register(o).map_err(|e| format!("op #{i} (register): {e}"))?,
                 Op::Auth(o) => r.authenticate(o).map_err(|e| format!("op #{i} (authenticate): {e}"))?,
+                Op::RegSaveFault(o, code) => {
+                    r.client.authenticator().store().set_save_fault(Some(*code));
+                    r.faulted = true;
+                    let res = r.register(o);
+                    r.faulted = false;
+                    r.client.authenticator().store().set_save_fault(None);
+                    res.map_err(|e| format!("op #{i} (register while the store refuses the save with 0x{code:02X}): {e}"))?
+                }
                 Op::AuthUpdateFault(o, code) => {
                     r.client.authenticator().store().set_update_fault(Some(*code));
                     r.faulted = true;
